@@ -3,6 +3,9 @@
 Images are coordinate-coded ramps (vf/geom.py): from the *output* image an affine map
 orig = A p + t is fitted on intact pixels, so the place where the content of a labelled
 keypoint went is known independently of the returned keypoints."""
+import os
+import shutil
+
 import numpy as np
 
 from vf import geom
@@ -74,6 +77,7 @@ def gen_case(ctx, i):
                  max_stride=int(r.choice([8, 16, 32])), max_hw=[None, [int(H * 1.3), int(W * 1.2)], [max(32, int(H * 0.7)), max(32, int(W * 0.8))]][int(r.integers(0, 3))],
                  crop=int(r.choice([32, 48, 64])), anchor=[None, 0, 1][int(r.integers(0, 3))], n_animals=int(r.integers(1, 4)), rotation=float(r.choice([15.0, 90.0, 180.0])),
                  gray=bool(r.random() < 0.3))
+        c.update(np_chunks=bool(r.random() < 0.3), shared_file=bool(r.random() < 0.3))  # storage mode; several videos held in ONE HDF5 file (shared frame indices)
     return c
 
 
@@ -311,14 +315,30 @@ def check_dataset(ctx, case, small):
     for mode in modes:
         key = ("vid", H, W, mode)
         if key not in _CACHE:
-            _CACHE[key] = synth.coded_video("C04", f"coded_{mode}_{H}x{W}.h5", 2, H, W, mode=mode)
+            _CACHE[key] = synth.coded_video("C04", f"coded8_{mode}_{H}x{W}.h5", 2, H, W, mode=mode, code_step=8)  # frame codes 8 apart: 8-bit re-quantisation (+-1) cannot confuse frames
         vids_by_mode[mode] = _CACHE[key]
     v = vids_by_mode[modes[0]]
     sk = synth.skeleton(n_nodes)
     cls = case["cls"]
     n_an = 1 if cls == "single" else case["n_animals"]
+    shared = bool(case.get("shared_file")) and not gray
+    slots = [(v, f, 8 * f) for f in range(2)]  # (video, frame index, content code)
+    if shared:  # two videos stored as two datasets of one HDF5 file; labelled frames of the two videos are adjacent and share their frame index
+        import h5py
+        import sleap_io as sio
+
+        key = ("shared8", H, W)
+        if key not in _CACHE:
+            path = os.path.join(synth.workdir("C04"), f"shared8_{H}x{W}.h5")
+            with h5py.File(path, "w") as fh:
+                for k in range(2):
+                    fh.create_dataset(f"video{k}", data=np.stack([geom.ramp_frame_uint8(H, W, 8 * (2 * k + f)) for f in range(2)]))
+            _CACHE[key] = [sio.load_video(path, dataset=f"video{k}") for k in range(2)]
+        sv = _CACHE[key]
+        slots = [(sv[k], f, 8 * (2 * k + f)) for f in range(2) for k in range(2)]
+        ctx.count("shared_file_datasets")
     frames = []
-    for f in range(2):
+    for (vid_, f, _code) in slots:
         poses = []
         for a in range(n_an):
             c = np.array([r.uniform(25, W - 25), r.uniform(25, H - 25)])
@@ -327,15 +347,28 @@ def check_dataset(ctx, case, small):
             if r.random() < 0.3:
                 p[int(r.integers(0, n_nodes))] = np.nan
             poses.append(p)
-        frames.append((v, f, poses))
+        frames.append((vid_, f, poses))
     labels = synth.labels_from_poses(frames, sk)
+    # sio.Labels may regroup the labelled frames (by video): index everything by the order the Labels object actually holds
+    pos = {(id(fr_[0]), fr_[1]): j for j, fr_ in enumerate(frames)}
+    perm = [pos[(id(lf.video), lf.frame_idx)] for lf in labels]
+    frames, slots = [frames[j] for j in perm], [slots[j] for j in perm]
     aug = case["aug"]
     geo = {"rotation": case["rotation"], "scale": (0.9, 1.1), "translate_width": 0.1, "translate_height": 0.1, "affine_p": 1.0}
     data_cfg = OmegaConf.create({"user_instances_only": True, "preprocessing": {"is_rgb": not gray}, "augmentation_config": {"geometric": geo}})
     head = OmegaConf.create({"sigma": 1.5, "output_stride": 2, "anchor_part": case["anchor"], "part_names": None})
     max_hw = tuple(case["max_hw"]) if case["max_hw"] else (None, None)
+    chunk_dirs = []
+    if case.get("np_chunks"):
+        ctx.count("np_chunk_datasets")
+
     def make_ds(lbls):
         common = dict(labels=lbls, data_config=data_cfg, max_stride=case["max_stride"], scale=case["scale"], apply_aug=aug, max_hw=max_hw)
+        if case.get("np_chunks"):
+            import tempfile
+
+            chunk_dirs.append(tempfile.mkdtemp(prefix="chunks-", dir=synth.workdir("C04")))
+            common.update(np_chunks=True, np_chunks_path=chunk_dirs[-1])
         torch.manual_seed(case["seed"])
         if cls == "single":
             return cd.SingleInstanceDataset(confmap_head_config=head, **common)
@@ -385,7 +418,7 @@ def check_dataset(ctx, case, small):
                 orig = P.reshape(-1, 2)
             want_hw = None
         o = img[0].numpy() * 255.0
-        marker_level = 128 + int(frames[lf_idx][1])
+        marker_level = 128 + int(slots[lf_idx][2])
         if gray:
             img2 = s2["instance_image" if cls == "centered" else "image"]
             kkey = "instance" if cls == "centered" else ("centroids" if cls == "centroid" else "instances")
@@ -395,6 +428,13 @@ def check_dataset(ctx, case, small):
             cx, cy = img[0, 0].numpy() * 255.0 / 0.2989, img2[0, 0].numpy() * 255.0 / 0.2989
             o = np.stack([cx, cy, ((cx >= geom.OFFSET - 0.5) & (cy >= geom.OFFSET - 0.5)).astype(np.float64)])
             marker_level = 1.0
+        if not gray:  # the blue channel carries the identity of the frame the pixels came from
+            lv = o[2][o[2] > 100]
+            other = {128 + c_ for (_v, _f, c_) in slots} - {marker_level}
+            if lv.size >= 12 and min(abs(float(np.median(lv)) - o_) for o_ in other) <= 2.0:  # the code of *another* labelled frame of this label set
+                ctx.violation("image-of-another-frame", f"{cls} dataset sample {idx}: the pixels carry frame code {float(np.median(lv)) - 128:.0f} but the sample belongs to the labelled frame with code {marker_level - 128} "
+                                                        f"(video {'shared file' if shared else 'single'}, frame_idx {slots[lf_idx][1]})", small)
+                continue
         if cls == "centered" and not aug:
             cc = s["centroid"].numpy().reshape(2)
             ctx.count("centred_crop_checks")
@@ -412,7 +452,9 @@ def check_dataset(ctx, case, small):
         tol = 1.0 + (0.5 if case["max_hw"] else 0.0) + (1.0 if case["scale"] != 1.0 else 0.0)  # integer rounding of the resized sizes
         reg_check(ctx, small, "registration", o, kp, np.asarray(orig, np.float32), marker_level=marker_level, tol=tol, aug_rotation=case["rotation"] if aug else 0.0,
                   what=f"{cls} dataset (aug={aug}, scale={case['scale']}, max_hw={case['max_hw']})")
-    return ("dataset", cls, aug, case["scale"], ms, repr(case["max_hw"]), case["anchor"], H, W)
+    for d_ in chunk_dirs:
+        shutil.rmtree(d_, ignore_errors=True)
+    return ("dataset", cls, aug, case["scale"], ms, repr(case["max_hw"]), case["anchor"], H, W, bool(case.get("np_chunks")), shared)
 
 
 def finalize(ctx):
